@@ -12,17 +12,27 @@ Stage T  the symbol table of the REAL PSK / QPSK / BPSK / QAM objects is recorde
          labelling passes, no particular one is expected.
 Stage R  every call TLC explored in Gray.tla (argument, exact result) is executed on
          binary2gray / gray2binary / count_bits / count_bit_errors with Python ints, numpy int64
-         scalars and int64 arrays (1-d and 2-d, with the axis argument)."""
+         scalars and int64 arrays (1-d and 2-d, with the axis argument); every bit-error pair also with
+         EVERY combination of integer dtypes / Python int / list for the two operands that can hold the
+         values, in BOTH argument orders and as non-contiguous views (the count is about values).
+Stage H  spec/modem/GrayCalls.tla: histories of conversion calls in one process (arrays whose maximum is
+         2^k - 1, 2^k, 2^k + 1 for many k in every order, scalars in between); ArgumentOnly holds,
+         Dev.MemoTableOneShort is found; the emitted graph is covered transition by transition in
+         freshly spawned interpreters (harness/props/c15_calls.py)."""
 import math
 
 import numpy as np
 
-from .. import tlc
+from .. import tlc, graph
 from . import constellation_common as cc
+from . import c15_calls
 
 GRAY = "modem/Gray.tla"
 GDEVS = ["G2BOnly16Bits", "B2GShiftMissing", "ErrCountsFirstOperand"]
-GINV = ["TypeOK", "InverseLaw", "AdjacentLaw", "ReflectedLaw", "CascadeLoopInv", "HammingLaw"]
+GINV = ["TypeOK", "InverseLaw", "AdjacentLaw", "ReflectedLaw", "CascadeLoopInv", "HammingLaw", "SymmetryLaw"]
+GCALLS = "modem/GrayCalls.tla"
+KS_QUICK = [1, 2, 3, 4, 5, 8, 11, 12, 13, 15, 16]
+DTYPES = ["uint8", "uint16", "int32", "uint32", "int64", "uint64"]
 CARE = ["WellFormed", "Bijective", "GrayAdjacent", "Unchecked", "Accepts"]
 
 
@@ -135,6 +145,147 @@ def replay_gray(ctx, cases, label):
     return bad
 
 
+def holds(v, kind):
+    if kind in ("pyint", "list"):
+        return True
+    info = np.iinfo(getattr(np, kind))
+    return info.min <= v <= info.max
+
+
+def replay_err_dtypes(ctx, cases, label):
+    """count_bit_errors on every combination of operand kinds that can hold the values, both argument orders,
+    contiguous and strided.  A combination numpy itself cannot xor (no common integer type, e.g. int64 with uint64)
+    or one with a Python int / list operand may be refused with an exception (not judged); a returned count must
+    be the Hamming distance TLC emitted."""
+    from pyphysim.util import misc
+    pairs = {}
+    for c in cases:
+        if c["op"] == "err":
+            u, v, e = dec(c["u"]), dec(c["v"]), int(c["ret"])
+            pairs[(u, v)] = e
+            pairs[(v, u)] = e                      # SymmetryLaw (checked by TLC on the specification)
+    items = sorted(pairs.items())
+    bad = []
+    for ka in DTYPES + ["pyint", "list"]:
+        for kb in DTYPES + ["pyint", "list"]:
+            sel = [(u, v, e) for (u, v), e in items if holds(u, ka) and holds(v, kb)]
+            if not sel:
+                continue
+            if "pyint" in (ka, kb):
+                sel = sel[:: max(1, len(sel) // 40)]           # one call per pair
+                groups = [[x] for x in sel]
+            else:
+                groups = [sel]
+            for grp in groups:
+                exp = np.array([e for _, _, e in grp], dtype=np.int64)
+                for lay in ("C", "strided"):
+                    def mk(vals, kind):
+                        if kind == "pyint":
+                            return int(vals[0])
+                        if kind == "list":
+                            return [[int(x)] for x in vals]
+                        return cc.as_layout(np.array(vals, dtype=getattr(np, kind)).reshape(-1, 1), lay, fill=1)
+                    A, B = mk([u for u, _, _ in grp], ka), mk([v for _, v, _ in grp], kb)
+                    refusable = ka in ("pyint", "list") or kb in ("pyint", "list") or \
+                        np.result_type(getattr(np, ka), getattr(np, kb)).kind not in "iu"
+                    try:
+                        if "pyint" in (ka, kb) and not isinstance(A, np.ndarray) and not isinstance(B, np.ndarray):
+                            got = np.array([int(misc.count_bit_errors(A, B))])
+                        else:
+                            got = np.asarray(misc.count_bit_errors(A, B, 1)).reshape(-1)
+                        tot = int(misc.count_bit_errors(A, B))
+                    except Exception as ex:
+                        if not refusable:
+                            bad.append({"stage": "R", "op": "errdt", "w": 62, "u": [g_[0] for g_ in grp][:8], "v": [g_[1] for g_ in grp][:8],
+                                        "form": f"{ka} x {kb} {lay}", "exp": exp[:8].tolist(), "got": f"raised {type(ex).__name__}: {ex}"[:160]})
+                        break
+                    if got.shape != exp.shape or not np.array_equal(got, exp) or tot != int(exp.sum()):
+                        i = int(np.argmax(got != exp)) if got.shape == exp.shape and np.any(got != exp) else 0
+                        bad.append({"stage": "R", "op": "errdt", "w": 62, "u": [grp[i][0]], "v": [grp[i][1]], "form": f"{ka} x {kb} {lay}",
+                                    "exp": [int(exp[i])], "got": [int(got[i])] if got.shape == exp.shape else f"shape {got.shape}, total {tot}"})
+                        break
+                    ctx.ok((label, "err", ka, kb, lay), n=len(grp))
+                    if ka == "pyint" or kb == "pyint" or ka == "list" or kb == "list":
+                        break                      # no layouts for these
+    return bad
+
+
+def replay_err_dtypes_one(ctx, us, vs, exp, ka, kb, lay):
+    from pyphysim.util import misc
+
+    def mk(vals, kind):
+        if kind == "pyint":
+            return int(vals[0])
+        if kind == "list":
+            return [[int(x)] for x in vals]
+        return cc.as_layout(np.array(vals, dtype=getattr(np, kind)).reshape(-1, 1), lay, fill=1)
+    try:
+        A, B = mk(us, ka), mk(vs, kb)
+        got = np.asarray(misc.count_bit_errors(A, B, 1)).reshape(-1).tolist() if isinstance(A, np.ndarray) or isinstance(B, np.ndarray) \
+            else [int(misc.count_bit_errors(A, B))]
+    except Exception as ex:
+        got = f"raised {type(ex).__name__}: {ex}"[:160]
+    if got == list(exp):
+        ctx.ok()
+        return []
+    return [{"stage": "R", "op": "errdt", "w": 62, "u": us, "v": vs, "form": f"{ka} x {kb} {lay}", "exp": exp, "got": got}]
+
+
+def calls_cfg(ks, dev=False, emit=True):
+    defs = {"Dev": tlc.tla({"MemoTableOneShort": bool(dev)})}
+    cfg = tlc.cfg_text(constants={"Ks": tlc.tla(set(ks)), "Fns": tlc.tla({"g2b", "b2g"}), "Forms": tlc.tla({"array", "scalar"}),
+                                  "Tops": tlc.tla({"below", "pow2", "above"})},
+                       defs=defs, invariants=["TypeOK", "ArgumentOnly"], view="View", action_constraints=["Emit"] if emit else [])
+    return cfg, defs
+
+
+def history_stage(ctx, runs, fut_model):
+    """stage H: conversion-call histories in fresh interpreters"""
+    import random
+    from concurrent.futures import ThreadPoolExecutor
+    r, rdev = fut_model
+    ctx.account(r, GCALLS, "conversion histories")
+    if rdev.violated != "ArgumentOnly":
+        raise tlc.TlcError(f"GrayCalls.tla: Dev.MemoTableOneShort was expected to violate ArgumentOnly, TLC reported {rdev.violated}")
+    ctx.notes.setdefault("deviations_refuted_by_model", {})["MemoTableOneShort"] = rdev.violated
+    lookup = {"g2b": {}, "b2g": {}}
+    for n, rr in runs.items():
+        if n.startswith("gray"):
+            for c in rr.emitted:
+                if c["op"] in lookup:
+                    lookup[c["op"]][str(dec(c["v"]))] = dec(c["ret"])
+    g = graph.Graph(r.emitted, label=lambda e: graph.key([e["fn"], e["form"], e["k"], e["top"]]))
+    root = g.roots()[0]
+    rng = random.Random(ctx.seed)
+    paths = g.transition_cover(root, max_len=8, rng=rng)
+    paths += g.random_walks(root, 300 if ctx.tier == "thorough" else 30, 10, rng)
+    rng.shuffle(paths)
+    jobs_paths = [{"id": i, "calls": [{k: e[k] for k in ("fn", "form", "k", "top")} for e in g.path_edges(p)]} for i, p in enumerate(paths)]
+    nw = 6 if ctx.tier == "thorough" else 3
+    # the first path of every worker runs in a never-used interpreter: put an array call with a power-of-two / other top first
+    firsts = [jp for jp in jobs_paths if len(jp["calls"]) == 1 and jp["calls"][0]["form"] == "array"]
+    rng.shuffle(firsts)
+    chunks = [[] for _ in range(nw)]
+    for i, jp in enumerate(firsts[:nw]):
+        chunks[i].append(jp)
+    rest = [jp for jp in jobs_paths if jp not in firsts[:nw]]
+    for i, jp in enumerate(rest):
+        chunks[i % nw].append(jp)
+    with ThreadPoolExecutor(min(nw, cc.nthreads())) as ex:
+        outs = list(ex.map(lambda ch: c15_calls.spawn({"lookup": lookup, "paths": ch, "seed": ctx.seed}), [c for c in chunks if c]))
+    for o in outs:
+        ctx.ok(n=o["ok"])
+        for v in o["viol"][:3]:
+            ctx.violation(f"conversion history ({'fresh interpreter' if v['fresh_interpreter'] else 'after module re-initialisation'}) "
+                          f"{v['history']}: {v['what']}", {"stage": "H", "calls": v["calls"], "history": v["history"]})
+    for _ in paths:
+        ctx.trace_done()
+    for _, _, e in g.edges:
+        ctx.distinct.add(("H", graph.key(e["pre"]), e["fn"], e["form"], e["k"], e["top"]))
+    ctx.sample({"stage": "H", "history": [f"{c['fn']}:{c['form']}:{c['top']}:2^{c['k']}" for c in jobs_paths[0]["calls"]]})
+    ctx.notes["conversion_history_graph"] = {"states": len(g.nodes), "edges": len(g.edges), "paths": len(paths), "workers": len(outs)}
+
+
 def judge_gray(ctx, bad):
     """mismatches of stage R: a known deviation is recognised by its AS-IS prediction, which is what
     Gray.tla emits with the deviation flag on (no transcription of the wrong algorithm in Python)"""
@@ -151,7 +302,7 @@ def judge_gray(ctx, bad):
                     asis[(W, dec(c["v"]))] = dec(c["ret"])
     seen = set()
     for b in bad:
-        what = (f"{b['op']}({b['u']}, {b['v']}) as {b['form']}: expected {b['exp']}, got {b['got']}" if b["op"] == "err"
+        what = (f"count_bit_errors({b['u']}, {b['v']}) as {b['form']}: expected {b['exp']}, got {b['got']}" if b["op"] in ("err", "errdt")
                 else f"{ {'b2g': 'binary2gray', 'g2b': 'gray2binary', 'pop': 'count_bits'}[b['op']] }({b['v'] if b['op'] != 'pop' else b['u']}) "
                      f"as {b['form']}: expected {b['exp']}, got {b['got']}")
         if b["op"] == "g2b" and asis.get((b["w"], b["v"])) == b["got"]:
@@ -216,6 +367,9 @@ def run(ctx):
         jobs += [(f"gray-pairs{w}", lambda w=w: run_gray(w, "pairs", additive=True)) for w in (1, 2, 4, 5)]
         jobs += [("gray-basis31", lambda: run_gray(31, "basis", emit=True, additive=True, nrand=nrand, seed=ctx.seed + 1)),
                  ("gray-basis17", lambda: run_gray(17, "basis", emit=True, additive=True, nrand=nrand, seed=ctx.seed + 2))]
+    ks = list(range(1, 18)) if thorough else KS_QUICK
+    jobs += [("calls", lambda: tlc.run(GCALLS, calls_cfg(ks)[0], defs=calls_cfg(ks)[1], coverage=True, timeout=900)),
+             ("calls-dev", lambda: tlc.run(GCALLS, calls_cfg(ks, dev=True, emit=False)[0], defs=calls_cfg(ks, dev=True)[1], timeout=900))]
     devjobs = [("G2BOnly16Bits", lambda: run_gray(62, "basis", dev=("G2BOnly16Bits",), nrand=2), "InverseLaw"),
                ("B2GShiftMissing", lambda: run_gray(4, "exh", dev=("B2GShiftMissing",)), "InverseLaw"),
                ("ErrCountsFirstOperand", lambda: run_gray(3, "pairs", dev=("ErrCountsFirstOperand",)), "HammingLaw")]
@@ -234,6 +388,7 @@ def run(ctx):
                 raise tlc.TlcError(f"Gray.tla: deviation {n} was expected to violate {inv}, TLC reported {r.violated}")
             ctx.notes.setdefault("deviations_refuted_by_model", {})[n] = r.violated
         cdev.result()
+    fut_model = (runs.pop("calls"), runs.pop("calls-dev"))
     for n, r in runs.items():
         ctx.account(r, GRAY if n.startswith("gray") else cc.MODULE, n)
     ctx.require_actions(["Construct", "SetPhaseOffsetAny", "Calls", "Step", "Return"])
@@ -251,8 +406,10 @@ def run(ctx):
         if n.startswith("gray") and r.emitted:
             bad += replay_gray(ctx, r.emitted, n)
             ctx.trace_done()
+    bad += replay_err_dtypes(ctx, runs["gray-basis62"].emitted + runs["gray-pairs3"].emitted, "dtypes")
     ctx.sample({"stage": "R", "example": runs["gray-basis62"].emitted[3]})
     judge_gray(ctx, bad)
+    history_stage(ctx, runs, fut_model)
     ctx.exhaustive = False
     ctx.notes["tables_validated"] = len(traces)
     ctx.notes["bounds"] = {"psk_orders": cc.PSK_ORDERS_C15, "qam_orders": cc.QAM_ORDERS, "gray_exhaustive_bits": 12,
@@ -265,6 +422,17 @@ def replay(ctx, data):
         tr, _ = cc.record_history(c["spec"])
         vd = cc.validate(ctx, [tr], CARE, "replay", nparts=1)[0]
         cc.report(ctx, tr, vd, CARE)
+        return
+    if c.get("stage") == "H":
+        o = c15_calls.spawn({"lookup": {"g2b": {}, "b2g": {}}, "seed": 0, "paths": [{"id": 0, "calls": c["calls"]}]})
+        ctx.ok(n=o["ok"])
+        for v in o["viol"][:1]:
+            ctx.violation(f"replay (fresh interpreter): {v['what']}", c)
+        return
+    if c["op"] == "errdt":
+        ka, kb, lay = c["form"].split()[0], c["form"].split()[2], c["form"].split()[3]
+        bad = replay_err_dtypes_one(ctx, c["u"], c["v"], c["exp"], ka, kb, lay)
+        judge_gray(ctx, bad)
         return
     cases = [{"op": c["op"] if c["op"] != "pop" else "err", "w": c["w"], "u": c["u"], "v": c["v"], "ret": c["exp"]}]
     if isinstance(c["u"], list):          # an array case: re-run element-wise is not possible without the per-pair values
